@@ -116,18 +116,18 @@ pub proof fn lemma_g_mp_wf(m: MultiPatternNfa)
 /// the match transitions of the members of a closure key are what the closure fires
 pub proof fn lemma_mp_mt_fires(m: MultiPatternNfa, ss: Seq<StateID>, key: Set<StateID>, a: int)
     requires mp_wf(m), key_is(g_mp(m), key, a), forall|x: StateID| #[trigger] key.contains(x) <==> ss.contains(x)
-    ensures forall|cc: CharClassID, t: StateID| #[trigger] mp_mt_from(m, ss, cc, t) <==> fires(g_mp(m), a, cc, t)
+    ensures forall|cc: CharClassID, t: StateID| #[trigger] mp_mt_from(m, ss, cc, t) <==> g_fires(g_mp(m), a, cc, t)
 {
-    reveal(fires);
+    reveal(g_fires);
     let g = g_mp(m);
-    assert forall|cc: CharClassID, t: StateID| #[trigger] mp_mt_from(m, ss, cc, t) <==> fires(g, a, cc, t) by {
+    assert forall|cc: CharClassID, t: StateID| #[trigger] mp_mt_from(m, ss, cc, t) <==> g_fires(g, a, cc, t) by {
         if mp_mt_from(m, ss, cc, t) {
             let ii = choose|ii: int| 0 <= ii < ss.len() && ii < ss.len() && #[trigger] mp_trans(m, ss[ii].0 as int, cc, t);
             assert(ss.contains(ss[ii]));
             assert(key.contains(ss[ii]));
             assert((g.reach)(a, ss[ii].0 as int) && (g.tr)(ss[ii].0 as int, cc, t));
         }
-        if fires(g, a, cc, t) {
+        if g_fires(g, a, cc, t) {
             let s = choose|s: int| (g.reach)(a, s) && #[trigger] (g.tr)(s, cc, t);
             // s is a state id: 0 or owned, hence representable
             assert(mp_trans(m, s, cc, t));
